@@ -103,7 +103,8 @@ func (clientScn) Generate(g *simrt.Rng, tier string) any {
 			if g.Bool(0.5) {
 				p.Server = append(p.Server, SrvOp{Kind: "reset"})
 			} // else: the live connections stay, only additional ones (channels target reached) fail their handshake
-			p.Server = append(p.Server, SrvOp{Kind: "cut", N: 1 + g.IntN(8)})
+			// often a single one: a run of them ends in the known finding K1, which hides what else the cut did
+			p.Server = append(p.Server, SrvOp{Kind: "cut", N: simrt.Pick(g, 1, 1, 1, 1+g.IntN(8))})
 		case g.Bool(0.5):
 			p.Server = append(p.Server, SrvOp{Kind: "refuse", N: 1 + g.IntN(5)})
 		default:
@@ -112,6 +113,13 @@ func (clientScn) Generate(g *simrt.Rng, tier string) any {
 	}
 	if !up {
 		p.Server = append(p.Server, SrvOp{Kind: "sleep", Us: 50000}, SrvOp{Kind: "up"})
+	}
+	if g.Bool(0.35) {
+		// the child overtakes its parent: the routine that starts a goroutine (the connect routine
+		// starting a connection's handler, a connection starting its loops) stays behind it
+		p.Sched.SpawnLag = simrt.Pick(g, 3, 5, 7)
+		p.Sched.SpawnMod = simrt.Pick(g, 1, 2, 3)
+		p.Sched.SpawnSalt = g.IntN(1 << 16)
 	}
 	return p
 }
